@@ -28,6 +28,7 @@ package bufconnect
 //@   ensures wellformed: err == nil ==> r != nil && r.token == token && token != "" && !contains(token, "@") && !contains(token, ",")
 //@   ensures rejected: err != nil ==> r == nil
 //@   ensures complete: token != "" && !contains(token, "@") && !contains(token, ",") ==> err == nil
+//@   ensures env-flag: err == nil ==> r.setBufTokenEnvVar == isFromEnvVar
 //
 //@ pure func (t *singleTokenProvider) RemoteToken(address) (r)
 //@   property C19
@@ -40,6 +41,16 @@ package bufconnect
 //@   ensures rejected: err != nil ==> r == nil
 //@   ensures entries: err == nil ==> r != nil && (forall h string :: h in r.addressToToken ==> h != "" && r.addressToToken[h] != "" && !contains(r.addressToToken[h], "@") && !contains(r.addressToToken[h], ":") && !contains(r.addressToToken[h], ",") && !contains(h, "@") && (exists j int :: 0 <= j && j < len(tokens) && tokens[j] == r.addressToToken[h] + "@" + h))
 //@   ensures all-applied: err == nil ==> (forall j int :: 0 <= j && j < len(tokens) ==> len(strings.Split(tokens[j], "@")) == 2 && strings.Split(tokens[j], "@")[1] in r.addressToToken && r.addressToToken[strings.Split(tokens[j], "@")[1]] == strings.Split(tokens[j], "@")[0])
+//@   ensures env-flag: err == nil ==> r.isFromEnvVar == isFromEnvVar
+// (ca-W) both directions: an error is reported exactly when some element is not a well-formed token@host pair
+// (w_elemOK, /verif/specs/C19_C20_extra.spec) or names a host that an earlier element already named
+//@   ensures accepted-only-if-all-well-formed: err == nil ==> (forall j int :: 0 <= j && j < len(tokens) ==> w_elemOK(tokens[j]))
+//@   ensures accepted-only-if-hosts-distinct: err == nil ==> (forall i int, j int :: 0 <= i && i < j && j < len(tokens) ==> w_hostOf(tokens[i]) != w_hostOf(tokens[j]))
+//@   ensures rejected-only-if-malformed: err != nil ==> (exists j int :: 0 <= j && j < len(tokens) && (!w_elemOK(tokens[j]) || (exists i int :: 0 <= i && i < j && w_hostOf(tokens[i]) == w_hostOf(tokens[j]))))
+//@   loop 0 invariant w-ok: forall j int :: 0 <= j && j < $i ==> w_elemOK(tokens[j])
+//@   loop 0 invariant w-distinct: forall i int, j int :: 0 <= i && i < j && j < $i ==> w_hostOf(tokens[i]) != w_hostOf(tokens[j])
+//@   loop 0 invariant w-hosts-seen: forall h string :: h in addressToToken ==> (exists j int :: 0 <= j && j < $i && w_hostOf(tokens[j]) == h)
+//@   loop 0 invariant w-seen-hosts: forall j int :: 0 <= j && j < $i ==> w_hostOf(tokens[j]) in addressToToken
 //@   loop 0 invariant forall h string :: h in addressToToken ==> h != "" && addressToToken[h] != "" && !contains(addressToToken[h], "@") && !contains(addressToToken[h], ":") && !contains(addressToToken[h], ",") && !contains(h, "@") && (exists j int :: 0 <= j && j < $i && tokens[j] == addressToToken[h] + "@" + h)
 //@   loop 0 invariant forall j int :: 0 <= j && j < $i ==> len(strings.Split(tokens[j], "@")) == 2 && strings.Split(tokens[j], "@")[1] in addressToToken && addressToToken[strings.Split(tokens[j], "@")[1]] == strings.Split(tokens[j], "@")[0]
 //@   canary ensures err != nil
@@ -59,6 +70,15 @@ package bufconnect
 //@   ensures empty: token == "" ==> err == nil && typeOf(r) == typeId(nopTokenProvider)
 //@   ensures single: token != "" && !contains(token, ",") && !contains(token, "@") ==> err == nil && typeOf(r) == typeId(*singleTokenProvider)
 //@   ensures multi: (contains(token, ",") || contains(token, "@")) && err == nil ==> typeOf(r) == typeId(*multipleTokenProvider)
+// (ca-W) the provider carries exactly what the string says, and remembers where the string came from
+//@   ensures single-carries-the-token: token != "" && !contains(token, ",") && !contains(token, "@") ==> cast(*singleTokenProvider, r).token == token && cast(*singleTokenProvider, r).setBufTokenEnvVar == isFromEnvVar
+//@   ensures multi-env-flag: (contains(token, ",") || contains(token, "@")) && err == nil ==> cast(*multipleTokenProvider, r).isFromEnvVar == isFromEnvVar
+//@   ensures multi-table-only-from-elements: (contains(token, ",") || contains(token, "@")) && err == nil ==> (forall h string :: h in cast(*multipleTokenProvider, r).addressToToken ==> (exists j int :: 0 <= j && j < len(strings.Split(token, ",")) && strings.Split(token, ",")[j] == cast(*multipleTokenProvider, r).addressToToken[h] + "@" + h))
+//@   ensures multi-every-element-applied: (contains(token, ",") || contains(token, "@")) && err == nil ==> (forall j int :: 0 <= j && j < len(strings.Split(token, ",")) ==> w_hostOf(strings.Split(token, ",")[j]) in cast(*multipleTokenProvider, r).addressToToken && cast(*multipleTokenProvider, r).addressToToken[w_hostOf(strings.Split(token, ",")[j])] == w_tokOf(strings.Split(token, ",")[j]))
+// "malformed token strings are rejected instead of being partially applied": a string with a separator is accepted exactly
+// when EVERY comma-separated element is a well-formed token@host pair and no host is named twice
+//@   ensures malformed-rejected: (contains(token, ",") || contains(token, "@")) && err == nil ==> (forall j int :: 0 <= j && j < len(strings.Split(token, ",")) ==> w_elemOK(strings.Split(token, ",")[j])) && (forall i int, j int :: 0 <= i && i < j && j < len(strings.Split(token, ",")) ==> w_hostOf(strings.Split(token, ",")[i]) != w_hostOf(strings.Split(token, ",")[j]))
+//@   ensures well-formed-accepted: (contains(token, ",") || contains(token, "@")) && err != nil ==> (exists j int :: 0 <= j && j < len(strings.Split(token, ",")) && (!w_elemOK(strings.Split(token, ",")[j]) || (exists i int :: 0 <= i && i < j && w_hostOf(strings.Split(token, ",")[i]) == w_hostOf(strings.Split(token, ",")[j]))))
 //
 // .netrc: the machine looked up is the one for the request's address; an error or no machine yields no token.
 //@ func (nt *netrcTokenProvider) RemoteToken(address) (r)
@@ -71,10 +91,20 @@ package bufconnect
 // address; it is not set at all when no provider has a token for that address.
 //@ func NewAuthorizationInterceptorProvider(tokenProviders) (r)
 //@   property C19
-//@   modifies heap
+//@   modifies heap, ghost.w_authSources
+// (ca-W) ghost.w_authSources makes the source list (and its ORDER) of the most recently built provider visible to callers
+//@   ghost before "return func(address string)" w_authSources := tokenProviders
+//@   ensures sources-recorded: ghost.w_authSources == tokenProviders
 //@   closure 0 ensures true
 //@   closure 1 ensures true
 //@   closure 2 ensures first-source-wins: forall v string :: v in ghost.hdrVals && !(v in old(ghost.hdrVals)) ==> (exists k int :: 0 <= k && k < len(tokenProviders) && tokenProviders[k].RemoteToken(address) != "" && v == AuthenticationTokenPrefix + tokenProviders[k].RemoteToken(address) && (forall j int :: 0 <= j && j < k ==> tokenProviders[j].RemoteToken(address) == ""))
 //@   closure 2 ensures attached-when-configured: forall k int :: 0 <= k && k < len(tokenProviders) && tokenProviders[k].RemoteToken(address) != "" && (forall j int :: 0 <= j && j < k ==> tokenProviders[j].RemoteToken(address) == "") ==> (AuthenticationTokenPrefix + tokenProviders[k].RemoteToken(address)) in ghost.hdrVals
+// (ca-W) "token never logged", the part that is a statement about values: the only strings the interceptor puts into the
+// error it returns are the captured address and the NAME of the environment variable - never a token - and the header
+// value is the only other place a token flows to (first-source-wins: every new header value is prefix + that token).
+//@   closure 2 ensures error-names-host-and-source-only: err != nil ==> typeOf(err) == typeId(*AuthError) && cast(*AuthError, err).remote == address && (cast(*AuthError, err).tokenEnvKey == "" || cast(*AuthError, err).tokenEnvKey == "BUF_TOKEN")
+//@   closure 2 ensures error-says-whether-a-token-was-attached: err != nil ==> (cast(*AuthError, err).hasToken <==> (exists k int :: 0 <= k && k < len(tokenProviders) && tokenProviders[k].RemoteToken(address) != ""))
+//@   closure 2 ensures error-blames-the-env-var-only-if-it-supplied-the-token: err != nil && cast(*AuthError, err).tokenEnvKey != "" ==> (exists k int :: 0 <= k && k < len(tokenProviders) && tokenProviders[k].RemoteToken(address) != "" && tokenProviders[k].IsFromEnvVar() && (forall j int :: 0 <= j && j < k ==> tokenProviders[j].RemoteToken(address) == ""))
 //@   loop 0 invariant ghost.hdrVals == old(ghost.hdrVals) && !hasToken
+//@   loop 0 invariant !usingTokenEnvKey
 //@   loop 0 invariant forall j int :: 0 <= j && j < $i ==> tokenProviders[j].RemoteToken(address) == ""
